@@ -357,7 +357,17 @@ def main_check(plugin, tier, replay=None):
 
     reported = set()
     known_hits = []
-    for (s, c, io, mo, mv) in mon_fail[:5]:
+    # every monitor failure is classified: failures matching a listed known finding (on the
+    # original, unshrunk case) are reported as KNOWN-FINDING; all others are violations
+    unknown = []
+    for item in mon_fail:
+        (s, c, io, mo, mv) = item
+        k = match_known(known, "; ".join(mv) + "\n" + "\n".join(c.lines))
+        if k:
+            known_hits.append(k)
+        else:
+            unknown.append(item)
+    for (s, c, io, mo, mv) in unknown[:6]:
         sig0 = mv[0].split("]")[0] if mv[0].startswith("[") else mv[0][:25]
 
         def still_fails(cc, s=s, sig0=sig0):
@@ -369,10 +379,6 @@ def main_check(plugin, tier, replay=None):
         o, _ = run_driver_robust(s.impl_cmd, [small], 60)
         mv2 = plugin.monitor(s.name, small, o[0]) or mv
         desc = "; ".join(mv2)[:400]
-        k = match_known(known, desc + "\n" + "\n".join(small.lines))
-        if k:
-            known_hits.append(k)
-            continue
         sig = mv2[0][:60]
         if sig in reported:
             continue
@@ -381,7 +387,7 @@ def main_check(plugin, tier, replay=None):
                              "impl_output": o[0], "model_output": mo, "monitor": mv2,
                              "broken": broken, "kind": "failing-input"})
         violations.append((desc, path, True))
-    if not violations and not (mon_fail and known_hits and not disagreements and not broken):
+    if not violations and not (mon_fail and known_hits and not unknown and not disagreements and not broken):
         if disagreements:
             s, c, io, mo = disagreements[0]
 
